@@ -1161,6 +1161,24 @@ impl Transaction {
             }
 
             //
+            // an output can be spent until the block that rebroadcasts (or collects) it:
+            // the outputs of block e are handled by block e + genesis_period + 1, so an
+            // input of a transaction in the next block (latest + 1) must satisfy
+            // block_id + genesis_period >= latest + 1
+            //
+            if validate_against_utxo {
+                let next_block_id = blockchain.get_latest_block_id() + 1;
+                if self.from.iter().any(|slip| {
+                    slip.amount > 0
+                        && slip.slip_type != SlipType::Bound
+                        && slip.block_id + blockchain.genesis_period < next_block_id
+                }) {
+                    error!("ERROR 582042: transaction spends an output older than the genesis period");
+                    return false;
+                }
+            }
+
+            //
             // validate routing path sigs
             //
             // it strengthens censorship-resistance and anti-MEV properties in the network
